@@ -5,6 +5,7 @@ pub mod cases;
 pub mod engine;
 pub mod qgen;
 pub mod refint;
+pub mod replay;
 pub mod value;
 
 pub use vcommon;
